@@ -15,6 +15,7 @@ import importlib
 import importlib.util
 import io
 import os
+import pathlib
 import shutil
 import sys
 import tempfile
@@ -45,7 +46,12 @@ RULE = ('Hypothesis-generated cases: 1-6 static-registration files forming an in
         'placed in 1-4 places of the grid {cwd, 1-3 registered locations (absolute or relative '
         'prefixes), one unregistered dir} x {open, package reader, 1-3 registered in-memory '
         'readers, one unregistered reader, entries the reader\'s own predicate denies}, each '
-        'place holding a distinct content; in 0-2 further locations the name exists as a '
+        'place holding a distinct content; added locations are given as str or pathlib.Path; a '
+        'copy of an include target (conflicting content) may sit NEXT TO THE INCLUDING FILE in '
+        'a directory that is neither cwd nor a location (includes never resolve relative to '
+        'the includer); names c14pkg/c14mod/f.gin go through a plain MODULE c14pkg/c14mod.py '
+        'with f.gin next to it (not a package: unreadable through the package reader); '
+        'in 0-2 further locations the name exists as a '
         'DIRECTORY (unreadable: the search must go on); '
         'optionally one file is unreadable everywhere (decoys '
         'only) and one statement targets an unknown configurable/module; entry point in '
@@ -79,6 +85,11 @@ ASSUMPTIONS = [
     'check ran exactly once and saw the final config, and a further bind_parameter is refused; '
     'this also holds when there is nothing to parse (no files, no bindings)',
     'static registration only (dynamic-registration files belong to C19)',
+    'a search location given as pathlib.Path behaves like the same location given as str',
+    'include targets are resolved like any other name (cwd, then the registered locations), '
+    'never relative to the directory of the including file',
+    'a dotted/slashed prefix naming a plain module (not a package) is not a package-relative '
+    'name: the package reader cannot read it even if a file of that name sits next to the module',
     'clear_config() resets bindings, not the registered search locations and readers',
     'registering an already registered reader again (same predicate) does not change its place in '
     'the reader order',
@@ -124,7 +135,9 @@ FLOORS = {
     'reparse:earlier-copy-appeared,direct': 0.01, 'reparse:earlier-copy-appeared,included': 0.02,
     'reparse:earlier-copy-appeared,entry-multi': 0.005,
     'reparse:earlier-copy-appeared,after-clear_config': 0.01, 'reparse:winner-deleted': 0.008,
-    'rereg:order-sensitive': 0.01,
+    'rereg:order-sensitive': 0.01, 'location:pathlib.Path': 0.2,
+    'beside:copy-next-to-includer,shadowing': 0.02, 'beside:copy-next-to-includer,only-copy': 0.004,
+    'name:mod': 0.05,
     'retry:ok,after-unknown': 0.02, 'retry:ok,after-missing': 0.03,
     'retry:ok,reparses-file-open-at-failure': 0.03, 'retry:ok,through-another-root': 0.005,
     'clear:after-first-location,more-follow': 0.05, 'clear:after-all-registrations': 0.2,
@@ -208,7 +221,8 @@ def _file():
   place = st.tuples(st.integers(0, 4), st.integers(0, 5),
                     st.sampled_from([False, False, False, True])).map(list)
   return st.fixed_dictionaries({
-      'kind': st.sampled_from(['rel', 'rel', 'sub', 'sub', 'abs', 'pkg', 'ns']),
+      'kind': st.sampled_from(['rel', 'rel', 'sub', 'sub', 'abs', 'pkg', 'ns', 'mod']),
+      'beside': st.booleans(),
       'parent': st.sampled_from([0, 0, 1, 2, 3]),
       'at': _small,
       'stmts': st.integers(0, 6).flatmap(lambda k: st.lists(_stmt(), min_size=k, max_size=6)),
@@ -242,7 +256,8 @@ def strategy():
           'finalize': st.sampled_from(['default', 'default', 'false', 'true']),
           'skip': st.sampled_from(['default', 'true', 'false']),
           'eform': st.integers(0, 8)})),
-      'locs': st.lists(st.sampled_from(['abs', 'abs', 'rel']), min_size=1, max_size=3),
+      'locs': st.lists(st.sampled_from(['abs', 'abs', 'rel', 'abs-path', 'rel-path']),
+                       min_size=1, max_size=3),
       'nread': st.integers(1, 3),
       'nspath': st.sampled_from([0, 0, 1, 2]),
       'nsdirs': st.integers(0, 7),
@@ -292,7 +307,7 @@ class Model:
     # registered prefixes, index 0 = current directory
     self.prefixes = ['']
     for k, form in enumerate(case['locs']):
-      self.prefixes.append(f'{tmp}/L{k}' if form == 'abs' else f'rel_location_{k}')
+      self.prefixes.append(f'{tmp}/L{k}' if form.startswith('abs') else f'rel_location_{k}')
     self.unregistered_prefix = tmp + '/LX'
     self.nread = case['nread']
     # names
@@ -308,6 +323,11 @@ class Model:
         self.names.append(f'{tmp}/abs/{base}')
       elif kind == 'ns':
         self.names.append(('c14ns/cfg/' if i % 2 else 'c14ns.cfg/') + base)
+      elif kind == 'mod':
+        # c14pkg is a regular package, c14pkg.c14mod a plain MODULE (c14mod.py): not a package,
+        # so the package reader cannot read this name, although a file f<i>.gin sits next to
+        # the module
+        self.names.append(('c14pkg.c14mod/' if i % 2 else 'c14pkg/c14mod/') + base)
       else:
         self.names.append('c14pkg.sub/' + base)
     # tree: parents, levels, children
@@ -350,6 +370,7 @@ class Model:
     self.sysf = {}                 # (dotted package, file name) -> (content, tag)
     self.nsf = {}                  # (portion of NS_PKG, file name) -> (content, tag)
     self.ns_decoys = {}            # (file name) -> content, in a site that is not on sys.path
+    self.mod_decoys = {}           # (file name) -> content, next to the module c14pkg/c14mod.py
     self.cust = [dict() for _ in range(self.nread + 1)]   # path -> (content, tag, allowed)
     self.decoys = 0
     nloc = len(self.prefixes) - 1
@@ -362,6 +383,8 @@ class Model:
         q = reader % (self.nread + 3)
         if f['kind'] in ('pkg', 'ns') and q in (0, 1):
           q = 1 - q                # package-relative names: the package reader is the usual home
+        if f['kind'] == 'mod' and q == 1:
+          q = 0                    # no package to put it in
         if f['kind'] == 'ns' and q == 1:
           # a portion of the namespace package: the location coordinate selects the sys.path
           # entry (3 = a site that is not on sys.path); only the bare name reaches the package
@@ -398,6 +421,9 @@ class Model:
         if ((l > nloc and f['kind'] != 'abs') or q == self.nread + 2
             or (q >= 2 and denied)):
           self.decoys += 1
+      if f['kind'] == 'mod':
+        self.mod_decoys[name.rsplit('/', 1)[1]] = self._render(i, f'f{i}@next-to-module')
+        self.decoys += 1
       if i != self.missing and not self.candidates(name):
         tag = f'f{i}@fallback'
         content = self._render(i, tag)
@@ -407,7 +433,7 @@ class Model:
           self.nsf[(1 + i % 2, name.rsplit('/', 1)[1])] = (content, tag)
         elif key is not None:
           self.sysf[key] = (content, tag)
-        elif f.get('dirs') and f['kind'] != 'abs':
+        elif (f.get('dirs') and f['kind'] != 'abs') or f['kind'] == 'mod':
           # a directory of that name will sit in an earlier place: keep the file in the last one
           self.disk[self._abs(_join(self.prefixes[nloc], name))] = (content, tag)
         else:
@@ -427,6 +453,28 @@ class Model:
         self.dirs[path] = None
         if l <= nloc:
           self.dir_locs.setdefault(i, set()).add(0 if f['kind'] == 'abs' else l)
+    # copies of include targets NEXT TO THE INCLUDING FILE, in a directory that is neither the
+    # current directory nor a registered location: never what an include denotes
+    self.loc_dirs = {self.cwd} | {os.path.normpath(self._abs(p)) for p in self.prefixes[1:]}
+    self.beside = 0
+    for i in range(self.n):
+      if self.entry == 'config' and i == 0:
+        continue
+      homes = sorted({os.path.dirname(path) for path, (_, tag) in self.disk.items()
+                      if tag.startswith(f'f{i}@') and 'beside' not in tag})
+      for home in homes:
+        if home in self.loc_dirs:
+          continue
+        for j in self.children[i]:
+          fj = self.case['files'][j]
+          if not fj.get('beside') or fj['kind'] == 'abs':
+            continue
+          path = home + '/' + self.names[j]
+          if path in self.disk or path in self.dirs:
+            continue
+          tag = f'f{j}@beside-includer-f{i}'
+          self.disk[path] = (self._render(j, tag), tag)
+          self.beside += 1
     if self.mutate is not None:
       self._mutate()
     if self.retry_of == 'missing':
@@ -578,6 +626,7 @@ class Model:
     self.labels = set()
     self.last = {}                 # binding key -> file that bound it last
     self.stack = []
+    self.homes = []                # directory of each file being parsed (None: not a disk file)
     self.max_levels = 0
     self.multi_cands = False
     self.boundary_override = False
@@ -606,6 +655,11 @@ class Model:
       elif any(l < cands[0][0] or (l == cands[0][0] and cands[0][1] > 0) for l in dir_locs):
         self.labels.add('dir:before-real-file')
         self.labels.add('dir:before-real-file,' + ('included' if self.stack else 'direct'))
+    # a copy of this include target sits next to the file that includes it?
+    if self.homes and self.homes[-1] is not None and (
+        self.homes[-1] + '/' + self.names[i]) in self.disk:
+      self.labels.add('beside:copy-next-to-includer')
+      self.labels.add('beside:copy-next-to-includer,' + ('shadowing' if cands else 'only-copy'))
     if not cands:
       raise _Fault('missing', i)
     l0, r0, tag = cands[0]
@@ -633,7 +687,14 @@ class Model:
     if l0 > 0:
       self.labels.add('selected:added-location')
     self.labels.add('name:' + self.case['files'][i]['kind'])
-    return self._walk(i, tag)
+    home = None
+    if r0 == 0:                    # read from disk by the built-in reader: it has a directory
+      prefix = '' if self.names[i].startswith('/') else self.prefixes[l0]
+      home = os.path.dirname(self._abs(_join(prefix, self.names[i])))
+    self.homes.append(home)
+    node = self._walk(i, tag)
+    self.homes.pop()
+    return node
 
   def _walk(self, i, tag):
     node = {'name': self.names[i] if isinstance(i, int) else None, 'imports': [], 'includes': []}
@@ -686,7 +747,15 @@ def _known_namespace_dir(case, verdict):
           verdict.get('kind') in ('unexpected-error', 'unreadable-file-wrong-exception'))
 
 
-KNOWN = {'namespace_dir_on_sys_path': _known_namespace_dir}
+def _known_module_for_package(case, verdict):
+  """Open finding: the package reader takes a plain module (c14pkg/c14mod.py) for a package."""
+  return (any(f['kind'] == 'mod' for f in case['files']) and
+          ('@next-to-module' in verdict.get('detail', '') or
+           verdict.get('kind') == 'unreadable-file-no-error'))
+
+
+KNOWN = {'namespace_dir_on_sys_path': _known_namespace_dir,
+         'module_taken_for_package': _known_module_for_package}
 
 
 # ----------------------------------------------------------------------------- reference side
@@ -712,6 +781,13 @@ def _materialise(m):
     os.makedirs(os.path.dirname(path), exist_ok=True)
     with open(path, 'w') as f:
       f.write(content)
+  for fname, content in m.mod_decoys.items():
+    os.makedirs(m.pydir + '/c14pkg', exist_ok=True)
+    for path, text in ((m.pydir + '/c14pkg/__init__.py', ''),
+                       (m.pydir + '/c14pkg/c14mod.py', 'VALUE = 1\n'),
+                       (m.pydir + '/c14pkg/' + fname, content)):
+      with open(path, 'w') as f:
+        f.write(text)
   for (pkg, fname), (content, _) in m.sysf.items():
     d = m.pydir
     for part in pkg.split('.'):
@@ -1091,6 +1167,9 @@ def _check(case, tmp):
     labels.add('nspath:namespace-dir-consulted')
   clear = case.get('clear', 0)
   for k, prefix in enumerate(m.prefixes[1:]):
+    if case['locs'][k].endswith('-path'):
+      prefix = pathlib.Path(prefix)      # a location may be given as a path object
+      labels.add('location:pathlib.Path')
     if k % 2:
       gin.config.add_config_file_search_path(prefix)
     else:
@@ -1162,7 +1241,7 @@ def _check(case, tmp):
     labels.add('levels>=2')
   if m.decoys:
     labels.add('decoy-present')
-  if any(form == 'rel' for form in case['locs']):
+  if any(form.startswith('rel') for form in case['locs']):
     labels.add('location:relative-prefix')
 
   # a custom reader may only be used where its own predicate says yes; an absolute name is
